@@ -24,7 +24,7 @@ import urllib.parse as UP
 import engine as E
 from engine import coq_str, coq_list, coq_bool, coq_z, coq_n, coq_opt
 
-RULE = ("redirect_uri strings derived from every registered URI of 15 client configurations (web / native, tuple and "
+RULE = ("redirect_uri strings derived from every registered URI of 16 client configurations (web / native, tuple and "
         "string registrations, with and without query, userinfo, port, IPv4 / IPv6 loopback, custom scheme, nothing "
         "registered) by a single-fault matrix of component mutations (scheme, userinfo, host prefix/suffix/case/"
         "confusion, port, path segments, dot segments, params, percent-encoded delimiters, query add/dup/reorder/"
